@@ -475,6 +475,11 @@ impl RequestIdManager {
 		self.id_kind.into_id(self.current_id.next())
 	}
 
+	/// Reserves `n` consecutive request IDs, as the entries of a batch need them, and returns the first.
+	pub fn next_request_ids(&self, n: u64) -> Id<'static> {
+		self.id_kind.into_id(self.current_id.next_n(n))
+	}
+
 	/// Get a handle to the `IdKind`.
 	pub fn as_id_kind(&self) -> IdKind {
 		self.id_kind
@@ -511,6 +516,13 @@ impl CurrentId {
 	fn next(&self) -> u64 {
 		self.0
 			.fetch_add(1, Ordering::Relaxed)
+			.try_into()
+			.expect("usize -> u64 infallible, there are no CPUs > 64 bits; qed")
+	}
+
+	fn next_n(&self, n: u64) -> u64 {
+		self.0
+			.fetch_add(usize::try_from(n).unwrap_or(usize::MAX), Ordering::Relaxed)
 			.try_into()
 			.expect("usize -> u64 infallible, there are no CPUs > 64 bits; qed")
 	}
